@@ -42,4 +42,23 @@ theorem spf_code : ∀ t ∈ tocs, ∀ k ∈ [0, 1, 3], ∀ fs ∈ [8000, 12000,
     samplesPerFrame (t + k) fs = samplesPerFrame t fs := by
   decide +kernel
 
+/-- (mode, frame rate `Fs/frame_size` of a coded frame, bandwidth) combinations `opus_encode_frame_native`
+    codes frames with: SILK-only 10–60 ms NB/MB/WB, hybrid 10/20 ms SWB/FB, CELT-only 2.5–20 ms. -/
+def encCombos : List (Int × Int × Int) :=
+  ([100, 50, 25, 16].flatMap fun fr => [1101, 1102, 1103].map fun bw => ((1000 : Int), (fr : Int), (bw : Int))) ++
+  ([100, 50].flatMap fun fr => [1104, 1105].map fun bw => ((1001 : Int), (fr : Int), (bw : Int))) ++
+  ([400, 200, 100, 50].flatMap fun fr => [1101, 1103, 1104, 1105].map fun bw => ((1002 : Int), (fr : Int), (bw : Int)))
+
+/-- Duration of a coded frame in 2.5 ms units from its frame rate (16 = ⌊1000/60⌋). -/
+def frameUnits (fr : Int) : Nat :=
+  if fr = 400 then 1 else if fr = 200 then 2 else if fr = 100 then 4 else if fr = 50 then 8 else if fr = 25 then 16 else 24
+
+/-- The TOC `gen_toc` writes into a DTX frame has its code bits clear and tells every decoder rate the
+    duration the encoder coded. -/
+theorem genToc_frame : ∀ x ∈ encCombos, ∀ ch ∈ [(1 : Int), 2],
+    EncDecide.genToc x.1 x.2.1 x.2.2 ch ∈ tocs ∧
+    ∀ fsd ∈ [8000, 12000, 16000, 24000, 48000],
+      samplesPerFrame (EncDecide.genToc x.1 x.2.1 x.2.2 ch) fsd * 400 = fsd * frameUnits x.2.1 := by
+  decide +kernel
+
 end Opus.Dtx
